@@ -174,7 +174,10 @@ def build_job(job):
         if rc != 0:
             return 'goto-instrument failed: ' + se[-2000:]
     if job.gen_bodies:
-        rc, so, se = sh(['goto-instrument', '--generate-function-body', '.*', '--generate-function-body-options', 'nondet-return', gb, gb], timeout=300)
+        # 'keep-libc': functions CBMC's C library models (strcmp, strlen, malloc, ...) keep their models; only the
+        # program's own body-less functions (the environment) return arbitrary values
+        pat = '.*' if job.gen_bodies is True else '^(?!(strcmp|strncmp|strlen|strnlen|strcpy|strncpy|strcat|strchr|strrchr|strstr|strdup|memcpy|memmove|memset|memcmp|malloc|calloc|realloc|free|abs|labs|llabs)$).*'
+        rc, so, se = sh(['goto-instrument', '--generate-function-body', pat, '--generate-function-body-options', 'nondet-return', gb, gb], timeout=300)
         if rc != 0:
             return 'goto-instrument --generate-function-body failed: ' + se[-1500:]
     job.gb = gb
@@ -435,10 +438,10 @@ def get_trace_inputs(job, prop):
         return None
     inputs = {}
     for line in txt.splitlines():
-        m = re.match(r'^\s+(in_[A-Za-z0-9_]+)((?:\[\d+l?\])*)((?:\.[A-Za-z0-9_]+)*)=(.*)$', line)
+        m = re.match(r'^\s+(in_[A-Za-z0-9_]+)((?:\[\d+l{0,2}\])*)((?:\.[A-Za-z0-9_]+)*)=(.*)$', line)
         if not m:
             continue
-        base, idx, mem, rhs = m.group(1), re.sub(r'l\]', ']', m.group(2)), m.group(3), m.group(4)
+        base, idx, mem, rhs = m.group(1), re.sub(r'l+\]', ']', m.group(2)), m.group(3), m.group(4)
         b = re.search(r'\(([01{}, ]+)\)\s*$', rhs)
         if not b:
             continue
